@@ -114,16 +114,43 @@ class C04(Check):
                     for plat in ("sgx", "tcp"):
                         cs.append({"name": name, "idx": idx, "other": True, "small": not self.thorough,
                                    "platform": plat})
+                if idx == 0 and isinstance(nom["reply"], dict) and "signature" in nom["reply"]:
+                    cs.append({"name": name, "idx": 0, "sigshape": True})
                 if edge:
                     # the same with the managers' -D/--iodebug option on the dongle (what is logged
                     # on the error paths)
                     cs.append({"name": name, "idx": idx, "other": True, "small": True, "iodebug": True})
         return cs
 
+    SIG_SHAPES = ["short-r", "short-s", "short-both", "shorter-r", "shorter-s", "tiny-r", "tiny-s", "tiny-both",
+                  "high-r", "high-s", "high-both"]
+
+    def sigshape(self, case, stats):
+        """the device reports success with a well-formed signature of another size (minimal DER integers
+        shorter than 32 bytes, or 33 with the sign byte): clause (ii) wants 0 / 1 all the same"""
+        vs = []
+        name = case["name"]
+        for shape in ([case["shape"]] if "shape" in case else self.SIG_SHAPES):
+            stats.evaluations += 1
+            self.sig_shape = shape
+            try:
+                w, o = self.run(name, None)
+            finally:
+                self.sig_shape = None
+            code = o.reply.get("errorcode") if isinstance(o.reply, dict) else None
+            stats.observe(("sigshape", name, shape, code, o.exc), nontrivial=True)
+            if o.exc is not None or code != self.nominal[name]["reply"]["errorcode"]:
+                vs.append(Violation("C04", "C04:device-success-not-reported:%s:signature-%s" % (name, shape),
+                                    {"name": name, "idx": 0, "sigshape": True, "shape": shape}, None,
+                                    {"reply": o.reply, "exc": o.exc, "error": o.error},
+                                    {"errorcode": self.nominal[name]["reply"]["errorcode"]}, "sigshape"))
+        return vs
+
     def run(self, name, fault_at):
         req = self.reqs[name]
         v1 = name.startswith("v1-")
         dev = dialogues.configure(PowHsm(seed=b"c04"), name)
+        dev.sig_shape = getattr(self, "sig_shape", None)
         w = World(dev)
         if fault_at is not None:
             idx, fault = fault_at
@@ -210,6 +237,8 @@ class C04(Check):
     def _run_case(self, case, stats):
         if case.get("history"):
             return self.history(case, stats)
+        if case.get("sigshape"):
+            return self.sigshape(case, stats)
         vs = []
         name, idx = case["name"], case["idx"]
         if "fault" in case:
